@@ -342,9 +342,21 @@ fn matrix(srv: &mut Srv, seed: u64, res: &mut CaseResult) -> R<()> {
         let h = srv.must_append("hw.in", ZERO_CONTEXT, Some(t.as_bytes()), None, None)?;
         calls.push((t.clone(), c, h));
     }
+    // contents that are not UTF-8 (one of them only after the first 8 KiB): `.cas` hands the script the bytes,
+    // `.append` stores them again byte for byte
+    let bins: Vec<Vec<u8>> = vec![
+        vec![0xff, 0xfe, 0x00, 0x80],
+        { let mut b = vec![b'a'; 9000]; b.extend([0xff, 0xfe, 0xc3, 0x28]); b.extend(vec![b'z'; 10]); b },
+        { let mut b = "text for a long while ".repeat(800).into_bytes(); b.push(0x80); b },
+    ];
+    let mut bin_calls = vec![];
+    for b in &bins {
+        bin_calls.push((b.clone(), srv.must_append("w.call", ZERO_CONTEXT, Some(b), None, None)?));
+    }
     let bs_call = srv.must_append("bs.call", ZERO_CONTEXT, None, None, None)?;
-    let want_done = calls.len();
-    let ok = srv.wait(Duration::from_secs(40), |log| log.iter().filter(|f| f.topic == "w.complete").count() >= want_done && log.iter().filter(|f| f.topic == "hw.out").count() >= want_done)?;
+    let want_done = calls.len() + bin_calls.len();
+    let want_hw = calls.len();
+    let ok = srv.wait(Duration::from_secs(40), |log| log.iter().filter(|f| f.topic == "w.complete" || f.topic == "w.error").count() >= want_done && log.iter().filter(|f| f.topic == "hw.out").count() >= want_hw)?;
     if !ok {
         res.inconclusive = Some("script writers did not finish within 40 s".into());
         return Ok(());
@@ -388,6 +400,24 @@ fn matrix(srv: &mut Srv, seed: u64, res: &mut CaseResult) -> R<()> {
                 let want = sha256_integrity(json_text.as_bytes());
                 if f.hash.as_ref().map(|h| h.to_string()).as_deref() != Some(want.as_str()) {
                     res.find(&["C10"], "hash-is-not-sha256-of-the-documented-rendering/handler_return_value", json!({"frame": f, "want": want}));
+                }
+            }
+        }
+    }
+    for (bytes, call) in &bin_calls {
+        let cid = call.id.to_string();
+        let raw = sha256_integrity(bytes);
+        for (topic, how) in [("w.str", ".cas | .append (non-UTF-8 content)"), ("w.bin", ".cas | into binary | .append (non-UTF-8 content)")] {
+            res.count("entry_point_writes_checked", 1);
+            res.seen("entry_points", how.to_string());
+            match log.iter().find(|f| f.topic == topic && meta_str(f, "frame_id") == Some(&cid)) {
+                None => res.find(&["C10", "C19"], format!("script-writer/frame-missing/{}", topic), json!({"binary_len": bytes.len()})),
+                Some(f) => {
+                    let got = f.hash.as_ref().map(|h| h.to_string());
+                    if got.as_deref() != Some(raw.as_str()) {
+                        let stored = match &f.hash { Some(h) => srv.cas(h)?.map(|b| b.len()), None => None };
+                        res.find(&["C10"], "script-copy-of-non-utf8-content-differs-from-the-original", json!({"topic": topic, "got": got, "want": raw, "original_len": bytes.len(), "stored_len": stored}));
+                    }
                 }
             }
         }
